@@ -64,6 +64,9 @@ VARIANTS = {
     # the library built WITHOUT its default `rawfd` feature (only the monitors that need no file /
     # socket adapters are compiled in: c14's scripted streams)
     "std-debug-norawfd": dict(toolchain=None, profile="dev", features="interpose", no_default_features=True, rustflags=GUARD),
+    # code generation for the build host's full instruction set (BMI, AVX, ... where present):
+    # target-feature dependent code paths (cfg(target_feature), intrinsics) are compiled in
+    "std-release-native": dict(toolchain=None, profile="release", features="interpose", rustflags=GUARD + " -Ctarget-cpu=native"),
     "xen-debug": dict(toolchain=None, profile="dev", features="xen,interpose", rustflags=GUARD),
     "xen-release": dict(toolchain=None, profile="release", features="xen,interpose", rustflags=GUARD),
     "asan": dict(toolchain="nightly", profile="dev", features="", target=TARGET,
@@ -73,6 +76,10 @@ VARIANTS = {
     "miri": dict(toolchain="nightly", profile="dev", features="", miri=True, rustflags=GUARD),
     # a BIG-ENDIAN host: Miri interpreting the s390x build (the sysroot is built offline from rust-src)
     "miri-be": dict(toolchain="nightly", profile="dev", features="", miri=True, target="s390x-unknown-linux-gnu", rustflags=GUARD),
+    # further supported architectures as hosts: powerpc64le (little-endian member of an architecture
+    # family that is otherwise big-endian) and aarch64
+    "miri-ppc64le": dict(toolchain="nightly", profile="dev", features="", miri=True, target="powerpc64le-unknown-linux-gnu", rustflags=GUARD),
+    "miri-aarch64": dict(toolchain="nightly", profile="dev", features="", miri=True, target="aarch64-unknown-linux-gnu", rustflags=GUARD),
 }
 
 
